@@ -17,6 +17,7 @@
 #include <string.h>
 #include <unistd.h>
 #include <pthread.h>
+#include <signal.h>
 #include <sched.h>
 #include <stdarg.h>
 #include <dlfcn.h>
@@ -84,7 +85,16 @@ static void *client2(void *a){ struct item *its=0; (void)a; its=calloc((size_t)n
 // ---- group / semaphore / once edges
 static long *rg_slot;
 static void *rg_waiter(void *a){ dispatch_group_t g=a; if(dispatch_group_wait(g, DISPATCH_TIME_FOREVER)) return (void*)-1L; return (void*)*(volatile long*)rg_slot; }
-static void edges(int rounds){ dispatch_queue_t gq=dispatch_get_global_queue(0,0);
+// signals with a handler (no SA_RESTART) interrupt the waits of the thread that runs the edges: an interrupted wait is not a satisfied one
+static pthread_t edge_thread; static atomic_int ping_stop; static atomic_long pings;
+static void on_usr1(int sig){ (void)sig; }
+static void *pinger(void *a){ (void)a; while(!atomic_load(&ping_stop)){ pthread_kill(edge_thread,SIGUSR1); atomic_fetch_add(&pings,1); usleep(150+(useconds_t)(atomic_load(&pings)%7)*40); } return 0; }
+static void edges_inner(int rounds);
+static void edges(int rounds){ struct sigaction sa; memset(&sa,0,sizeof sa); sa.sa_handler=on_usr1; sigaction(SIGUSR1,&sa,0);
+  edge_thread=pthread_self(); pthread_t pg; pthread_create(&pg,0,pinger,0);
+  edges_inner(rounds);
+  atomic_store(&ping_stop,1); pthread_join(pg,0); }
+static void edges_inner(int rounds){ dispatch_queue_t gq=dispatch_get_global_queue(0,0);
   for(int r=0;r<rounds && !viol;r++){
     // group: n items write plain slots; wait and a notify block read them
     enum { N=12 }; static long slots[N]; memset(slots,0,sizeof slots); dispatch_group_t g=dispatch_group_create(); long tag=r*1000+7;
@@ -135,7 +145,6 @@ static void dump(void){ unsigned long n=atomic_load(&nev); if(n>MAXEV) n=MAXEV;
   for(unsigned long i=0;i<n;i++){ ev_t *e=&evs[i]; if(e->kind==1) printf("R %d\n",e->tid); else printf("V %d %lx %s %d %lx %lx\n",e->tid,(unsigned long)e->addr,e->func,e->op,(unsigned long)e->o,(unsigned long)e->n); } fflush(stdout); }
 static void *watchdog(void *a){ (void)a; long last=-1; int same=0; for(;;){ usleep(200000); long d=atomic_load(&items); if(d==last) same++; else same=0; last=d; if(same>=150){
    printf("STUCK after %ld items: a synchronous submission never returned\n",d); _dispatch_verif_atomic_cb=0; _dispatch_verif_load_cb=0; dump(); _exit(3);} } return 0; }
-#include <signal.h>
 static void on_crash(int sig){ char b[200]; int n=snprintf(b,sizeof b,"ORACLE VIOL seed=%llu the library trapped or crashed (signal %d) during contended synchronous submissions (a trap here is the library's own ownership / corruption check firing)\n",(unsigned long long)seed,sig); if(n>0) (void)!write(1,b,(size_t)n); _exit(1); }
 int main(int argc,char**argv){ signal(SIGILL,on_crash); signal(SIGSEGV,on_crash); signal(SIGABRT,on_crash); signal(SIGBUS,on_crash); seed=argc>1?strtoull(argv[1],0,0):1; int nthr=argc>2?atoi(argv[2]):6; nops=argc>3?atoi(argv[3]):2000;
   evs=calloc(MAXEV,sizeof(ev_t)); SQ=dispatch_queue_create("s",DISPATCH_QUEUE_SERIAL); CQ=dispatch_queue_create("c",DISPATCH_QUEUE_CONCURRENT);
@@ -147,5 +156,5 @@ int main(int argc,char**argv){ signal(SIGILL,on_crash); signal(SIGSEGV,on_crash)
   edges(argc>4?atoi(argv[4]):40);
   _dispatch_verif_atomic_cb=0; _dispatch_verif_load_cb=0; inject=0;
   if(viol) printf("ORACLE VIOL seed=%llu %s\n",(unsigned long long)seed,vmsg);
-  else printf("ORACLE ok items=%ld chain=%ld futex_wakes=%ld delayed=%ld\n",atomic_load(&items),chain,atomic_load(&wakes),atomic_load(&delayed));
+  else printf("ORACLE ok items=%ld chain=%ld futex_wakes=%ld delayed=%ld signals_at_waits=%ld\n",atomic_load(&items),chain,atomic_load(&wakes),atomic_load(&delayed),atomic_load(&pings));
   dump(); return viol?1:0; }
